@@ -7,6 +7,7 @@ specification's.
 import Mqtt.Driver.AckQ
 import Mqtt.Driver.Topics
 import Mqtt.Driver.Broker
+import Mqtt.Driver.KeepAlive
 
 namespace Mqtt.Driver
 
@@ -14,6 +15,7 @@ structure DState where
   ackq : AckQ.St := AckQ.St.init
   topics : Topics.St := Topics.St.init
   broker : Broker.St := {}
+  ka : KeepAlive.St := {}
 
 def dispatch (st : DState) (line : String) : DState × String × String :=
   match words line with
@@ -26,6 +28,9 @@ def dispatch (st : DState) (line : String) : DState × String × String :=
   | "broker" :: rest =>
     let (a, m, s) := Broker.handle st.broker rest
     ({ st with broker := a }, m, s)
+  | "ka" :: rest =>
+    let (a, m, s) := KeepAlive.handle st.ka rest
+    ({ st with ka := a }, m, s)
   | [] => (st, "", "")
   | _ => (st, "bad-core", "bad-core")
 
